@@ -891,6 +891,51 @@ impl Generator {
     }
 }
 
+/// Verification hooks (only with `--cfg a4lg_ffuzzy_verif`).
+#[cfg(a4lg_ffuzzy_verif)]
+impl Generator {
+    /// (verification hook) The state after consuming `size` zero bytes.
+    ///
+    /// Zero bytes never end a piece (the rolling hash value stays zero), so
+    /// only the input size, the rolling window index and the FNV states of
+    /// the first block hash context differ from a new generator.
+    /// (Multiplying by the FNV prime has a period dividing 64 on the 8-bit
+    /// state of the `opt-reduce-fnv-table` variant and 16 on the 6-bit one.)
+    pub fn verif_new_with_prefix_zeroes(size: u64) -> Self {
+        let mut generator = Generator::new();
+        generator.0.input_size = size;
+        for _ in 0..(size % 7) {
+            generator.0.roll_hash.update_by_byte(0);
+        }
+        for _ in 0..(size % 64) {
+            generator.0.bh_context[0].h_full.update_by_byte(0);
+            generator.0.bh_context[0].h_half.update_by_byte(0);
+        }
+        generator
+    }
+
+    /// (verification hook) Behave as if `count` zero bytes were fed.
+    ///
+    /// Only valid if the last 7 bytes fed were zero (or nothing was fed),
+    /// so that the rolling hash value is zero and stays zero.
+    pub fn verif_feed_zero_bytes(&mut self, count: u64) {
+        assert!(self.0.roll_hash.value() == 0);
+        self.0.input_size = self.0.input_size.saturating_add(count);
+        for _ in 0..(count % 7) {
+            self.0.roll_hash.update_by_byte(0);
+        }
+        for _ in 0..(count % 64) {
+            for bh in &mut self.0.bh_context[self.0.bhidx_start..self.0.bhidx_end] {
+                bh.h_full.update_by_byte(0);
+                bh.h_half.update_by_byte(0);
+            }
+            if self.0.is_last {
+                self.0.h_last.update_by_byte(0);
+            }
+        }
+    }
+}
+
 impl Default for Generator {
     fn default() -> Self {
         Self::new()
